@@ -1,5 +1,6 @@
 import PP.Driver.Codec
 import PP.Driver.Monitors
+import PP.Hand.Arbitrary
 /-!
 # `ppdrv`: the model side of the correspondence check
 
@@ -330,6 +331,27 @@ def goSf (a : Args) : String :=
 
 end handlers
 
+/-! `Arbitrary` (C19): the model runs on `F64` directly -/
+def hexBytes? (s : String) : Option (List Nat) :=
+  let rec go : List Char → Option (List Nat)
+    | [] => some []
+    | a :: b :: rest => do
+      let x ← F64.hexDigit a
+      let y ← F64.hexDigit b
+      let r ← go rest
+      pure ((x * 16 + y) :: r)
+    | _ => none
+  go s.toList
+
+def goArbitrary {T : Type} [Nums T F64] (d : Hand.Arb.PieceDec T) (a : Args) : String :=
+  match (a.get "bytes").bind hexBytes? with
+  | some bs =>
+    let model : Out := match Hand.Arb.arbitraryPw d bs with
+      | none => .err
+      | some pw => .segs (pw.segments.map fun s => (FX.v s.end, (Nums.nums s.poly).map FX.v))
+    verdict a model (Mon.arbitrary (a.get "agree"))
+  | none => "bad args"
+
 def handle (line : String) : String :=
   match (line.trimAscii.toString.splitOn " ").filter (· ≠ "") with
   | [] => "bad empty"
@@ -373,6 +395,13 @@ def handle (line : String) : String :=
       | "merge" => some (goMerge a)
       | "linear" => some (goLinear a)
       | "spline" => some (goSpline a)
+      | "arbitrary" => (match tag with
+        | "p0" => some (goArbitrary Hand.Arb.decPoly0 a) | "p1" => some (goArbitrary Hand.Arb.decPoly1 a)
+        | "p2" => some (goArbitrary Hand.Arb.decPoly2 a) | "p3" => some (goArbitrary Hand.Arb.decPoly3 a)
+        | "p4" => some (goArbitrary Hand.Arb.decPoly4 a) | "p5" => some (goArbitrary Hand.Arb.decPoly5 a)
+        | "p6" => some (goArbitrary Hand.Arb.decPoly6 a) | "p7" => some (goArbitrary Hand.Arb.decPoly7 a)
+        | "p8" => some (goArbitrary Hand.Arb.decPoly8 a) | "pn" => some (goArbitrary Hand.Arb.decPolyN a)
+        | _ => none)
       | _ => none
     r.getD ("bad unknown command or type: " ++ cmd ++ " " ++ tag)
 
